@@ -369,6 +369,10 @@ func drawSalt(t *rapid.T, label string) []byte {
 		return []byte{}
 	case 2:
 		return gen.BytesN(t, label, rapid.SampledFrom([]int{1, 31, 32, 33, 63, 64, 65, 80}).Draw(t, label+"_len"))
+	case 3:
+		// beyond the HMAC block sizes (64 / 128 bytes): a salt longer than a block is hashed first
+		// (added after seeded change C15f, a fixed 128-byte salt buffer)
+		return gen.BytesN(t, label, rapid.SampledFrom([]int{127, 128, 129, 130, 200, 255, 256, 257, 1000}).Draw(t, label+"_len"))
 	}
 	return gen.BytesN(t, label, rapid.IntRange(1, 80).Draw(t, label+"_len"))
 }
@@ -379,6 +383,9 @@ func saltClass(s []byte) string {
 		return "nil"
 	case len(s) == 0:
 		return "empty"
+	}
+	if len(s) > 128 {
+		return "set>128"
 	}
 	return "set"
 }
